@@ -864,6 +864,13 @@ def lex_lit(text):
     mb = _re.fullmatch(r"b'(?:\\x([0-9a-fA-F]{2})|([^\\']))'([A-Za-z_][A-Za-z0-9_]*)?", text)
     if mb:   # a byte literal counts as a number (its value), but not as an *integer* literal (no repeat counts)
         return dict(mant=int(mb.group(1), 16) if mb.group(1) else ord(mb.group(2)), exp10=0, suffix=mb.group(3) or "", kind="byte", neg=False)
+    mr = _re.fullmatch(r"0(x)([0-9a-fA-F_]+?)([g-zG-Z_][A-Za-z0-9_]*)?|0(o|b)([0-9_]+)([A-Za-z_][A-Za-z0-9_]*)?", text)
+    if mr and text[:2] in ("0x", "0o", "0b"):
+        # radix-prefixed integer literals: the value counts (syn keeps it in base 10)
+        if mr.group(1): digits, suf, base = mr.group(2), mr.group(3), 16
+        else: digits, suf, base = mr.group(5), mr.group(6), {"o": 8, "b": 2}[mr.group(4)]
+        digits = digits.replace("_", "")
+        if digits: return dict(mant=int(digits, base), exp10=0, suffix=suf or "", kind="int", neg=False)
     m = _re.fullmatch(r"(\d[\d_]*)(?:\.(\d[\d_]*)?)?(?:[eE]([+-]?\d[\d_]*))?([A-Za-z_][A-Za-z0-9_]*)?", text)
     if not m: return None
     ip = m.group(1).replace("_", "")
